@@ -577,8 +577,10 @@ ReadOnly == [][store' # store => act'.name = "Write"]_vars
 WritesAreRefused == [][act'.name = "WriteAttempt" => res'.kind \in {"readonly", "notsupported"}]_vars
 
 (* 7. Resources.  When a handler has returned all its cursors are closed, however the stream ended;
-      a handler runs only while the client holds a handle that can end it.  NoLeak is violated as
-      coded (DB.Get / Has / Write / NewIterator). *)
+      a handler runs - and the client side of a stream stays unfinished - only while the client
+      holds a handle that can end it.  NoLeak is violated as coded: on the server by DB.Get / Has /
+      Write / NewIterator (handler + view for ever), on the client by EVERY transaction (Discard / Close
+      half-close the stream and never read its status). *)
 CleanupComplete ==
   \A s \in Streams : strm[s].srv \in {"none", "done"} => \A c \in CurIds : ~strm[s].cur[c].open
 NoLeak ==
